@@ -386,6 +386,24 @@ func c16Run(r *simkit.Run) {
 		return true
 	})
 
+	// a client that pushes every file of the block directory, the block map file included (a valid item type that is
+	// not an item of the map), and one that forgets an item: Save must then refuse, or what it stores must be valid
+	incomplete := ""
+
+	if r.Chance(1, 4) {
+		items = append(items, base.BlockItemMap)
+		r.Probe("map_file_pushed_as_an_item")
+	}
+
+	if len(items) > 1 && r.Chance(1, 4) {
+		k := r.Choose(len(items))
+		if items[k] != base.BlockItemMap {
+			incomplete = string(items[k])
+			items = append(items[:k], items[k+1:]...)
+			r.Probe("one_item_not_pushed")
+		}
+	}
+
 	for i := len(items) - 1; i > 0; i-- {
 		j := r.Choose(i + 1)
 		items[i], items[j] = items[j], items[i]
@@ -428,7 +446,7 @@ func c16Run(r *simkit.Run) {
 			r.Probe("import_rejected_item")
 			r.Op("import of %s rejected", items[i])
 
-			if kind == 0 {
+			if kind == 0 && items[i] != base.BlockItemMap {
 				panic(fmt.Sprintf("the untouched block was rejected at item %s: %+v", items[i], failed[i]))
 			}
 
@@ -462,7 +480,7 @@ func c16Run(r *simkit.Run) {
 	if saveErr != nil {
 		r.Probe("save_rejected")
 
-		if kind == 0 {
+		if kind == 0 && incomplete == "" {
 			panic(fmt.Sprintf("the untouched block was rejected by Save: %+v", saveErr))
 		}
 
@@ -485,6 +503,11 @@ func c16Run(r *simkit.Run) {
 	})
 
 	if verr != nil {
+		if incomplete != "" {
+			sigSuffix += ":item-not-pushed"
+			mapNote += "; the item " + incomplete + " was never pushed"
+		}
+
 		r.Fail("stored-block-fails-validator", c16Kinds[kind]+sigSuffix,
 			"the source served a block with %s (%s, manifest of the real block); BlockImporter stored it, but IsValidBlockFromLocalFS on the stored files says: %v",
 			c16Kinds[kind], mapNote, verr)
